@@ -59,7 +59,8 @@ class G:
         else:
             step = L(st)
         if r.random() < 0.06:
-            step = V("m") if r.random() < 0.5 else ("bin", "Mul", L(1), L(abs(st)))
+            # (a variable step is kept >= 1: a zero step is invalid Fortran)
+            step = ("intr", "IMax", [V("m"), L(1)]) if r.random() < 0.5 else ("bin", "Mul", L(1), L(abs(st)))
         return lo, hi, step
 
     # ---------------------------------------------------------------- expressions
